@@ -125,6 +125,7 @@ def run_job(args):
                     out['obligations'].append(rec)
         # ---------------- numeric twin: replay of refutations + generated inputs --------------
         if job.num:
+            pre_obj = job.pre() if job.pre else None          # a fresh one: the symbolic phase may have converted matrices in place
             def native(inputs, rng):
                 c = Ctx('num', inputs=inputs, rng=rng, rtol=job.rtol, atol=job.atol, numdim=job.numdim); c.pre = pre_obj
                 for _ in range(50):
